@@ -186,7 +186,8 @@ fn hostile(known_f1: bool, f1_hits: &mut u64) -> Result<u64, String> {
             Ok(Err(e)) => {
                 let msg = format!("{e:?}");
                 for name in names {
-                    if !msg.contains(name) {
+                    // (the name as the error prints it, in quotes: a bare `A` also occurs in `PARTY_1`)
+                    if !msg.contains(&format!("\"{name}\"")) {
                         // known finding C12-F1: a mistyped constant is reported as InvalidLiteralType(literal, type), which
                         // carries the offending literal and the expected type but not the constant's name
                         if known_f1 && msg.contains("InvalidLiteralType") && !msg.contains("MissingConstant") {
